@@ -404,17 +404,43 @@ def child_main():
         epydoc2stan.get_parser_by_name = wrap_get_parser
         epydoc2stan.format_docstring_fallback = wrap_fb
         out['qn'] = qn
+        # internal failures of the renderers' to_node (NotImplementedError is the documented "not supported")
+        node_fail = []
+        from pydoctor.epydoc.markup import restructuredtext as rst_mod
+        wrapped = []
+        for cls in (epytext.ParsedEpytextDocstring, rst_mod.ParsedRstDocstring, plaintext.ParsedPlaintextDocstring):
+            orig_tn = cls.to_node
+
+            def mk(orig_tn, cls):
+                def to_node(self):
+                    try:
+                        return orig_tn(self)
+                    except NotImplementedError:
+                        raise
+                    except Exception as e:  # noqa
+                        node_fail.append('%s.to_node: %s: %s' % (cls.__name__, type(e).__name__, str(e)[:80]))
+                        raise
+                return to_node
+            cls.to_node = mk(orig_tn, cls)
+            wrapped.append((cls, orig_tn))
+        order = case.get('order', 'sdt')
         try:
             with contextlib.redirect_stdout(io.StringIO()):
                 system = build(src, fmt, pt)
                 ob = system.allobjects[qn]
                 out['docstring'] = ob.docstring
-                out['stage'] = 'format_summary'
-                s1 = epydoc2stan.format_summary(ob)
-                out['stage'] = 'format_docstring'
-                d = epydoc2stan.format_docstring(ob)
-                out['stage'] = 'format_toc'
-                t = epydoc2stan.format_toc(ob)
+                res = {}
+                for step in order:
+                    if step == 's':
+                        out['stage'] = 'format_summary'
+                        res['s'] = epydoc2stan.format_summary(ob)
+                    elif step == 'd':
+                        out['stage'] = 'format_docstring'
+                        res['d'] = epydoc2stan.format_docstring(ob)
+                    else:
+                        out['stage'] = 'format_toc'
+                        res['t'] = epydoc2stan.format_toc(ob)
+                s1, d, t = res['s'], res['d'], res['t']
                 out['stage'] = 'format_docstring2'
                 n1 = len(reports)
                 d2 = epydoc2stan.format_docstring(ob)
@@ -444,6 +470,7 @@ def child_main():
                 out['parser_raised'] = next((e[1] for e in mine if e[1]), None)
                 out['recovered_errs'] = max([e[2] for e in mine if not e[1]] or [0])
                 out['fallback_called'] = qn in fb_calls
+                out['to_node_failed'] = node_fail[0] if node_fail else None
                 out['in_parse_errors'] = qn in system.parse_errors['docstring']
                 out['parse_errors'] = sorted(n for n in system.parse_errors['docstring'])
                 out['reports_obj'] = len([r for r in reports if r[0] == qn and r[2].startswith('bad docstring')])
@@ -460,10 +487,13 @@ def child_main():
             tb = traceback.extract_tb(e.__traceback__)
             out['raised'] = '%s: %s' % (type(e).__name__, str(e)[:200])
             out['where'] = ['%s:%d:%s' % (os.path.basename(f.filename), f.lineno, f.name) for f in tb[-4:]]
+            out['to_node_failed'] = node_fail[0] if node_fail else None
         finally:
             model.Documentable.report = orig_report
             epydoc2stan.get_parser_by_name = real_get_parser
             epydoc2stan.format_docstring_fallback = real_fb
+            for cls, orig_tn in wrapped:
+                cls.to_node = orig_tn
         return out
 
     def text_of_target(ob, case):
@@ -498,6 +528,25 @@ def child_main():
         # and through epytext.parse_docstring + the real barrier
         return {'parse': res, 'errs_len': len(errs)}
 
+    # ------------------------------------------------------------------ ParsedEpytextDocstring.to_node caching
+    def run_epynode(case):
+        errs = []
+        try:
+            pd = epytext.parse_docstring(case['text'], errs)
+        except Exception as e:  # noqa
+            return {'parse_failed': type(e).__name__}
+        calls = []
+        docs = []
+        for i in range(case.get('ncalls', 3)):
+            try:
+                doc = pd.to_node()
+                if not any(doc is x for x in docs):
+                    docs.append(doc)
+                calls.append(['returned', [j for j, x in enumerate(docs) if x is doc][0], len(doc.children)])
+            except Exception as e:  # noqa
+                calls.append(['raised', type(e).__name__])
+        return {'calls': calls, 'has_tree': pd._tree is not None}
+
     sys.stdout.write('READY\n'); sys.stdout.flush()
     for line in sys.stdin:
         line = line.strip()
@@ -511,6 +560,8 @@ def child_main():
                 r = run_real(case)
             elif case['k'] == 'epytail':
                 r = run_epytail(case)
+            elif case['k'] == 'epynode':
+                r = run_epynode(case)
             else:
                 r = {'worker_error': 'unknown case kind'}
         except BaseException as e:  # noqa
